@@ -53,11 +53,11 @@ theorem CopyReady_transfer (d : DepInfo) (path : Str) (iv : Bool) (fs fs1 : FS) 
   | href u => simp [CopyReady, hs]
   | subdir pkg dir abs =>
     have hl : isLocal d = true := by simp [isLocal, hs]
-    have hS' : Apart (resolve abs) X := by simpa [srcDir, hs] using hS hl
+    have hS' : Apart (pathResolve abs) X := by simpa [srcDir, hs] using hS hl
     have hT' := hT hl
     simp only [CopyReady, hs] at h ⊢
     obtain ⟨habs, hST, hpath, hmode⟩ := h
-    have hsrc : ∀ r, fs1.read (resolve abs ++ r) = fs.read (resolve abs ++ r) :=
+    have hsrc : ∀ r, fs1.read (pathResolve abs ++ r) = fs.read (pathResolve abs ++ r) :=
       fun r => hframe _ (not_prefix_of_apart hS' r)
     refine ⟨habs, hST, ?_, ?_⟩
     · rw [fileOnPath_false_iff] at hpath ⊢
@@ -70,7 +70,7 @@ theorem CopyReady_transfer (d : DepInfo) (path : Str) (iv : Bool) (fs fs1 : FS) 
       | true =>
         simp only [haf, if_true] at hmode ⊢
         intro n r hr hn
-        have e : resolve abs ++ [n] = resolve abs ++ [n] := rfl
+        have e : pathResolve abs ++ [n] = pathResolve abs ++ [n] := rfl
         rw [hsrc] at hn ⊢
         exact hmode n r hr hn
       | false =>
